@@ -188,6 +188,29 @@ def r_fieldmap(ctx):
             else:
                 res.fail(fp, "position:%s" % pos, "raw part %s comes from field `%s` but from_raw_parts fills that field from %s" % (pos, ".".join(fld), back),
                          span=ctx.span_of(fp))
+        # the capacity part is what Mem::size reports for the same storage
+        szp = None
+        for im2 in fx.impls_of("mem::Mem"):
+            if im2["self_ty"].get("path") == st:
+                szp = [it["path"] for it in im2["items"] if it["name"] == "size"]
+        res.inst(sample={"backend": st, "check": "raw-parts capacity == Mem::size()"}, func=ip)
+        if szp:
+            sv = None
+            for tt, I3 in ctx.arms(szp[0]) or []:
+                r3 = I3.all_effects(("RETURN",))
+                sv = r3[0]["value"] if r3 else None
+            pv = ta.get(("2",))
+
+            def fieldof(v):
+                sp_ = source_paths(v)
+                return sorted(s[1] for s in sp_)
+            same = (isinstance(sv, Poly) and isinstance(pv, Poly) and (sv == pv or (fieldof(sv) and fieldof(sv) == fieldof(pv))))
+            if same:
+                res.ok()
+            else:
+                res.fail(ip, "capacity-vs-size", "into_raw_parts reports capacity %s while Mem::size() of the same storage is %s" % (pv, sv), span=ctx.span_of(ip))
+        else:
+            res.ok()
         res.inst(sample={"backend": st, "check": "into_raw_parts suppresses Drop"}, func=ip)
         bad = [d for d in normal_drops(Ia) if _owning_ty(d["ty"])]
         if bad:
@@ -625,6 +648,15 @@ def r_heap(ctx):
         st_size = [e for e in I.all_effects(("STORE",)) if e["path"] == (("P", 1), ("size",))]
         chk("size-update", len(st_size) == 1 and as_poly(st_size[0]["value"]) == new and all(_not_after(I, st_size[0], x) for x in allocs + reallocs + deallocs),
             "self.size must be set to the new size after the allocator calls", st_size[0] if st_size else None)
+        # ... on every normal path: a return without the update is only allowed when the size already equals the request
+        for r in I.all_effects(("RETURN",)):
+            def ok_at(g, st_size=st_size):
+                if st_size and st_size[0].gid == g:
+                    return True
+                return implies(I.facts_at(g), ("eq0", _canon(size0 - new)))
+            ok_ret = every_path_to(I, r.gid, ok_at)
+            chk("size-update-all-paths", bool(ok_ret), "resize returns without recording the new size although it differs from the current one "
+                "(capacity() then disagrees with the request: with_capacity/reserve/shrink do not keep their promises)", r)
         for e in allocs + reallocs + deallocs:
             pass
     # Drop => resize(0)
